@@ -52,6 +52,7 @@ type registry struct {
 	runDone   map[int]int // run -> count at the root
 	hooks     map[string]func(p *proto)
 	all       []*proto
+	cfgSeen   map[int]string
 	sendsBeg  int64
 	sendsEnd  int64
 }
@@ -69,6 +70,7 @@ func (r *registry) reset(servers []*onet.Server) {
 	r.delivered = map[int]map[int]bool{}
 	r.runDone = map[int]int{}
 	r.hooks = map[string]func(p *proto){}
+	r.cfgSeen = map[int]string{}
 	atomic.StoreInt64(&r.sendsBeg, 0)
 	atomic.StoreInt64(&r.sendsEnd, 0)
 }
@@ -225,6 +227,23 @@ func (p *proto) handleReply(m struct {
 
 type c09svc struct {
 	*onet.ServiceProcessor
+}
+
+// NewProtocol records the configuration that arrives with the first message of a run and lets
+// onet instantiate the protocol.
+func (s *c09svc) NewProtocol(tn *onet.TreeNodeInstance, conf *onet.GenericConfig) (onet.ProtocolInstance, error) {
+	me := reg.index(tn.ServerIdentity())
+	reg.Lock()
+	if reg.cfgSeen == nil {
+		reg.cfgSeen = map[int]string{}
+	}
+	if conf != nil {
+		reg.cfgSeen[me] = string(conf.Data)
+	} else if _, ok := reg.cfgSeen[me]; !ok {
+		reg.cfgSeen[me] = ""
+	}
+	reg.Unlock()
+	return nil, nil
 }
 
 func registerOnetLevel() {
@@ -979,4 +998,53 @@ func clusterScenario(in input) clusterOut {
 	}
 	canary(7)
 	return out
+}
+
+// runConfig: the configuration set with SetConfig must travel with the first message that reaches
+// a node; the victim is down for the first SendTo and back for the second.
+func runConfig(in input) lib.Case {
+	if entryCluster != nil {
+		entryCluster.close()
+		entryCluster = nil
+	}
+	c := newCluster(in.TCP, 3, 2)
+	defer c.close()
+	svc := c.servers[0].Service(svcName).(*c09svc)
+	pi, err := svc.CreateProtocol(protoName, c.tree)
+	if err != nil {
+		return lib.Case{Discard: true}
+	}
+	root := pi.(*proto)
+	if err := root.SetConfig(&onet.GenericConfig{Data: []byte("cfg")}); err != nil {
+		return lib.Case{Discard: true}
+	}
+	victim, control := 1, 2
+	firstFailed := false
+	if in.Warm { // "warm" here: the victim is down during the first send
+		c.kill(victim)
+		firstFailed = root.SendTo(c.nodes[victim], &Data{ID: 1}) != nil
+		nv := c.lt.VerifRestart(c.servers[victim])
+		c.servers[victim] = nv
+		c.up[victim] = true
+	}
+	root.SendTo(c.nodes[victim], &Data{ID: 2})
+	root.SendTo(c.nodes[control], &Data{ID: 3})
+	waitUntil(func() bool { return len(reg.deliveredTo(2)) == 1 && len(reg.deliveredTo(3)) == 1 }, 5*time.Second)
+	vmsg := len(reg.deliveredTo(2)) == 1
+	reg.Lock()
+	vcfg := reg.cfgSeen[victim] == "cfg"
+	ccfg := reg.cfgSeen[control] == "cfg"
+	reg.Unlock()
+	tr := "mem"
+	if in.TCP {
+		tr = "tcp"
+	}
+	cl := "config-" + tr
+	if firstFailed {
+		cl += "-firstfailed"
+	}
+	coq := fmt.Sprintf("CConfig %s %s %s %s", lib.Bool(firstFailed), lib.Bool(vmsg), lib.Bool(vcfg), lib.Bool(ccfg))
+	return lib.Case{Coq: coq, Class: cl, Nontrivial: firstFailed,
+		Obs: map[string]interface{}{"first_send_failed": firstFailed, "message_reached_restarted_node": vmsg,
+			"configuration_reached_restarted_node": vcfg, "configuration_reached_control_node": ccfg}}
 }
